@@ -341,6 +341,15 @@ def closing_of(r):
     return r.c
 
 
+def not7(i):
+    """assert_ predicate that fails on the value 7 (a fatal error in the middle of a stream)"""
+    v = i.v if isinstance(i, Rec) else i
+    return not (type(v) is int and v == 7)
+
+
+ASSERT_PREDS = {'not7': not7}
+
+
 def always_true(i):
     return True
 
